@@ -137,6 +137,24 @@ def eval_C10(item):
                 got['mom0'] = float(st.mom0())
             else:
                 got['count'] = int(st.count())
+    # other statistic objects (same dimensionality) created and evaluated AFTER this one has been evaluated must not
+    # change what it reports: cached answers again, and an answer that is computed only now (another direction)
+    dir2 = [x + 1 if i == 0 else x for i, x in enumerate(item['dir'])]
+    if not any(dir2):
+        dir2[0] = 2
+    with warnings.catch_warnings():
+        warnings.simplefilter('ignore')
+        for i in range(2):
+            o2 = make_stat(*gen_points(random.Random(77 * len(pos) + i), nd)[:3])
+            o2.mom2()
+            o2.paxes()
+        again = {'mom2': np.array(st.mom2(), dtype=float), 'along': float(st.mom2_along(tuple(item['dir']))),
+                 'along2': float(st.mom2_along(tuple(dir2))), 'mom1': [float(x) for x in st.mom1()]}
+        ref2 = float(make_stat(pos, wk, fb).mom2_along(tuple(dir2)))
+    if not np.array_equal(again['mom2'], got['mom2']) or again['along'] != got['along'] or again['mom1'] != got['mom1']:
+        res['pred'].append('mom1 / mom2 / mom2_along of an object changed after OTHER statistic objects were evaluated')
+    if again['along2'] != ref2:
+        res['pred'].append('mom2_along%r = %r after other objects were evaluated, %r on a fresh object' % (tuple(dir2), again['along2'], ref2))
     fresh = stat_results(make_stat(pos, wk, fb), item['dir'])
     for k in ('mom0', 'along', 'count'):
         if got[k] != fresh[k]:
@@ -518,6 +536,13 @@ def eval_C13(item):
             f3 = PPVStatistic(ScalarStatistic(np.array(vals), idx3), md3).flux
             if f3.unit != u.Jy or not close(float(f3.value), tb_jy, tb_jy, tol):
                 res['pred'].append('PPVStatistic.flux = %r, textbook conversion of the summed values %r Jy' % (f3, tb_jy))
+            # the data unit may be given as a Quantity (4 x the unit, values 4 x smaller): the same physical input
+            md_q = dict(md)
+            md_q['data_unit'] = 4 * unit
+            fq = PPStatistic(ScalarStatistic(np.array(vals) / 4.0, idx2), md_q).flux
+            if fq.unit != u.Jy or not close(float(fq.value), tb_jy, tb_jy, tol):
+                res['pred'].append('PPStatistic.flux with data_unit given as the Quantity 4 %s and values / 4 = %r, expected %r Jy'
+                                   % (unit, fq, tb_jy))
         except Exception as e:
             res['pred'].append('flux property raised %s: %s' % (type(e).__name__, str(e)[:80]))
         # a required item that is missing in the metadata must surface as an error from the property too
@@ -839,31 +864,40 @@ def eval_C11(item):
                 q4 = POW.get(k, 1)
                 if not close(w ** q4, (val[k] * item['c'] ** pw) ** q4, (10 * DX * DX * item['c'] ** 2 + 10) ** q4, 1e-8):
                     res['pred'].append('%s does not scale linearly with spatial_scale' % k)
-    # linear WCS: centroids through the transformation
+    # linear WCS: centroids through the transformation (scales, offsets, and a PC matrix that mixes the axes)
     if item['wcs']:
         from astropy.wcs import WCS
         w = WCS(naxis=dim)
         w.wcs.crpix = [1.0] * dim
         w.wcs.cdelt = [0.5, 2.0, 3.0][:dim]
         w.wcs.crval = [10.0, -4.0, 100.0][:dim]
+        pc = np.eye(dim)
+        variant = (len(pos) + sum(sum(c) for c in pos)) % 3
+        if variant == 1:
+            c30, s30 = math.cos(math.pi / 6), math.sin(math.pi / 6)
+            pc[0, 0], pc[0, 1], pc[1, 0], pc[1, 1] = c30, -s30, s30, c30          # sky plane rotated by 30 degrees
+        elif variant == 2:
+            pc = np.eye(dim) + 0.25 * np.arange(dim * dim).reshape(dim, dim) / float(dim * dim)   # general linear
+        w.wcs.pc = pc
         md4 = dict(md)
         md4['wcs'] = w
         with warnings.catch_warnings():
             warnings.simplefilter('ignore')
             s4 = cls(st, md4)
             try:
-                gx, gy = float(s4.x_cen), float(s4.y_cen)
-                # numpy axis k of the data <-> FITS axis dim-1-k
-                def world(numpy_axis, pix):
-                    f_ax = dim - 1 - numpy_axis
-                    return w.wcs.crval[f_ax] + w.wcs.cdelt[f_ax] * pix
-                ex = world(sky[1], exp['x']) if dim == 2 else None
-                if dim == 2:
-                    ey = world(sky[0], exp['y'])
-                    if not close(gx, ex, 100, 1e-8) or not close(gy, ey, 100, 1e-8):
-                        res['pred'].append('centroid through the WCS: got (%r, %r), expected (%r, %r)' % (gx, gy, ex, ey))
+                # FITS axis f <-> numpy axis dim-1-f; pixel coordinates are 0-based, crpix = 1
+                pf = [float(mean[dim - 1 - f]) for f in range(dim)]
+                wf = [w.wcs.crval[f] + w.wcs.cdelt[f] * sum(pc[f, g] * pf[g] for g in range(dim)) for f in range(dim)]
+                wn = [wf[dim - 1 - k] for k in range(dim)]       # world coordinates in numpy axis order
+                want = {'x_cen': wn[sky[1]], 'y_cen': wn[sky[0]]}
+                if dim == 3:
+                    want['v_cen'] = wn[item['vaxis']]
+                for k_, v_ in sorted(want.items()):
+                    g_ = float(getattr(s4, k_))
+                    if not close(g_, v_, 200, 1e-8):
+                        res['pred'].append('%s through the linear WCS (variant %d): got %r, expected %r' % (k_, variant, g_, v_))
             except Exception as e:
-                res['pred'].append('centroid through the WCS raised %s' % type(e).__name__)
+                res['pred'].append('centroid through the WCS raised %s: %s' % (type(e).__name__, str(e)[:60]))
     return res
 
 
